@@ -359,8 +359,8 @@ def check_program(sess: Session, src: str, calls: list[tuple[str, list[Any]]], r
 
 def search_witnesses(ctx: Ctx) -> SearchResult:
 	"""corpus/C03/*.json with a "witness": regression cases of the repaired defects (must pass: any finding is a violation under the
-	old key, which known_findings lists as fixed) and the witnesses of the two known findings; each in a fresh session, plus once
-	all together in one session in reverse order (history)"""
+	old key, which known_findings lists as fixed) and the witnesses of the known findings; regression cases each in a fresh session,
+	the known witnesses in one session, plus once all together in one session in reverse order (history)"""
 	res = SearchResult('corpus regression cases / known-finding witnesses: real type_of vs CPython run-time type')
 	d = os.path.join(common.CORPUS_DIR, PROP)
 	recs = []
@@ -370,12 +370,15 @@ def search_witnesses(ctx: Ctx) -> SearchResult:
 				rec = json.load(f)
 			if rec.get('witness'):
 				recs.append((fn, rec['witness']))
-	shared = Session(ctx)
+	shared, known_sess = Session(ctx), Session(ctx)
 	for fresh, items in ((True, recs), (False, list(reversed(recs)))):
 		for fn, w in items:
 			calls = [(c[0], [tuple(a) if w.get('tuple_args') and isinstance(a, list) else a for a in c[1]]) for c in w['calls']]
 			before = len(res.findings)
-			check_program(Session(ctx) if fresh else shared, w['program'], calls, res, fn, 'witness')
+			# first pass: every regression case in a session of its own, the known-finding witnesses in one session in order;
+			# second pass: everything in one session in reverse order
+			sess = shared if not fresh else Session(ctx) if w.get('expect') == 'pass' else known_sess
+			check_program(sess, w['program'], calls, res, fn, 'witness')
 			got = sorted({f.key for f in res.findings[before:]})
 			name = w.get('regression_of') or w.get('expect_key')
 			if w.get('expect') == 'pass':
@@ -399,10 +402,24 @@ def search_exprs(ctx: Ctx) -> SearchResult:
 			for i in range(8):
 				g = X.Gen(rng, SEARCH_ENV, 'search')
 				t = g.pick_ty(2) if rng.random() < 0.8 else ('list', ('opt', X.INT))
-				if i == 1 and rng.random() < 0.08:
-					# slices of tuples; negative / computed bounds are the known finding tuple-slice-nonliteral-bounds
-					tv = rng.choice(['t', 'tt'])
-					fns.append(f"{tv}[{rng.choice(['', '0', '1', '-1', '-2', 'a', 'c'])}:{rng.choice(['', '1', '2', '-1', 'a'])}]")
+				if i == 1:
+					# one slice of a tuple per program. Literal (>= 0) or omitted bounds are the repaired domain (c5f6dc1, key tuple-slice:
+					# a mismatch is a violation): every combination of omitted / in-range / out-of-range / crossing bounds over tuples of
+					# 2..5 elements, as a parameter, a literal, a call result or an element of a list. Negative / computed bounds are
+					# the known finding tuple-slice-nonliteral-bounds (low rate).
+					tv, n = rng.choice([('t', 2), ('tt', 3), ('(a, s, b, p)', 4), ('(s, a)', 2), ('(b, s, a, p, s)', 5), ('[tt, tt][0]', 3), ('(a, (s, b), xs)', 3)])
+					if rng.random() < 0.08:
+						lo, hi = rng.choice(['', '0', '1', '-1', '-2', 'a', 'c']), rng.choice(['', '1', '2', '-1', 'a'])
+						if not (lo.startswith('-') or lo in ('a', 'c') or hi.startswith('-') or hi == 'a'):
+							lo = '-1'
+						fns.append(f'{tv}[{lo}:{hi}]')   # the known form stands alone: its value is not used again
+						continue
+					else:
+						lo = '' if rng.random() < 0.35 else str(rng.randint(0, n + 1))
+						hi = '' if rng.random() < 0.45 else str(rng.randint(0, n + 1))
+					e1 = f'{tv}[{lo}:{hi}]'
+					r = rng.random()
+					fns.append(e1 if r < 0.5 else f'[{e1}, {e1}]' if r < 0.7 else f'{e1} if p else {e1}' if r < 0.8 else f'{{s: {e1}}}' if r < 0.9 else f'[z for z in [{e1}]]')
 					continue
 				if i == 2 and rng.random() < 0.35:
 					# a ternary whose branches share the generic class but differ in its arguments (the inferred type has to cover the
@@ -503,7 +520,7 @@ PARTIAL = {
 	'correspondence_only': 'that the model IS the code: ProceduralResolver handlers, try_operation, TemplateManipulator path matching (stream infer, shared sessions = history), member lookup through the inheritance chain, on_relay, constructors, IteratorTrait, declaration typing of whole function bodies (stream infer-programs); CPython semantics of the core (stream pytype)',
 	'search_only': 'that the class-scope visibility rule equals CPython\'s scoping (LEGB) — the Lean side states the rule on C08\'s Scope model and checks it on the nested-class program, the equality with CPython is exhibited by the recorder search (shadowing through nested classes); Enum, user generics, nested classes, imports, resolve_unknown laziness, while/try/with, augmented and attribute assignments',
 	'assumed_of_user_code (WorldConf)': 'constructor / method / property / class-variable / __next__ results conform to their DECLARED types (each method body\'s own typing obligation; method bodies are typed statement by statement by sound_decl / sound_conf but not executed by the model)',
-	'still_false_on_the_code (known findings)': 'list-literal-class-dedup, dict-get-missing-key, abs-of-bool, list-of-dict-items, boolop-nonbool-operands, tuple-slice-nonliteral-bounds, ternary-union-of-containers (each with a proved counterexample outside Core), min-max-mixed-numeric, union-of-subclasses-attribute, explicit-init-call (floats / user classes are outside the model: corpus witness only); every one is generated at a low rate and replayed from corpus/C03 first',
+	'still_false_on_the_code (known findings)': 'list-literal-class-dedup, dict-get-missing-key, abs-of-bool, list-of-dict-items, boolop-nonbool-operands, tuple-slice-nonliteral-bounds, ternary-union-of-containers (each with a proved counterexample outside Core), min-max-mixed-numeric, union-of-subclasses-attribute, explicit-init-call, optional-template-none-argument, template-nonfirst-type-argument (floats / user classes / user generic functions are outside the model: corpus witness only); every one is generated at a low rate and replayed from corpus/C03 first',
 }
 
 ASSUMPTIONS = [
